@@ -446,11 +446,11 @@ def b8(ctx, rep):
         raise core.Incomplete('B8: get_ident: Id construction not found')
     flds = ids[0]['v']['fields']
     p0 = f['params'][0]['name']
-    rep.check(pr.raw_prefix_removed(flds.get('original'), p0), 'B8', 'Id.original:raw-prefix-removed', 'identifier with r# removed',
+    rep.check(pr.raw_prefix_removed(flds.get('original'), p0, ctx), 'B8', 'Id.original:raw-prefix-removed', 'identifier with r# removed',
               f"get_ident: Id.original = `{vt.show(flds.get('original'))[:100]}` keeps the raw prefix: for a field written `r#type` Go emits `R#type string` and Python `r#type: str` — `#` is not an identifier character, the file does not parse", site)
     ins = [vt.unvar(n) for n in vt.walk(flds.get('renamed')) if isinstance(vt.unvar(n), dict) and vt.unvar(n).get('k') == 'call' and vt.unvar(n).get('f') == 'rename_all_to_case' and vt.unvar(n).get('args')]
     for i, n in enumerate(ins):
-        rep.check(pr.raw_prefix_removed(n['args'][0], p0), 'B8', f'rename-input#{i}:raw-prefix-removed', 'rename rule applied to the identifier with r# removed',
+        rep.check(pr.raw_prefix_removed(n['args'][0], p0, ctx), 'B8', f'rename-input#{i}:raw-prefix-removed', 'rename rule applied to the identifier with r# removed',
                   f"get_ident: the rename rule is applied to `{vt.show(n['args'][0])[:100]}`, which keeps the raw prefix: `r#type` becomes a property / case name containing `#`", site)
     if not ins:
         raise core.Incomplete('B8: no rename_all_to_case application found in the value of Id.renamed')
